@@ -11,7 +11,7 @@ class _FullStackLoad(FullCheck):
   REQUIRED_CLASSES = ()
 
   def bias(self, rng):
-    return {'membership': 0.5, 'scripted': 0.7}
+    return {'membership': 0.5, 'scripted': 0.7, 'dead_waiter_drain': 0.6}
 
 
 class C04(LBCheck):
@@ -25,18 +25,18 @@ class C04(LBCheck):
           'down, else exactly when drained. Every 4th case instead drives a complete real client stack '
           '(C01\'s scenarios: real transports, pools, timeouts, faults, membership changes) and requires every '
           'balancer node to carry load 0 at final quiescence (all calls completed, quiet for 4 T_max) and no '
-          'client-side connection to a departed member to be open any more. '
+          'client-side connection to a departed member to be open any more; 60% of the pooled Thrift histories end with the last member\'s pool saturated by slow calls, further calls expiring in its queue, the member leaving and the slow calls completing afterwards. '
           'non-trivial = a dispatch or removal judged; distinct as C03')
   REQUIRED_CLASSES = ('heap', 'aperture', 'removed:idle', 'removed:loaded', 'removed:down', 'removed:down+loaded',
                       'rejoin-while-draining', 'complete:reply', 'complete:error', 'complete:timeout',
-                      'complete:fault', 'late-reply-after-timeout', 'contraction', 'full-stack', 'close-fails-inflight')
+                      'complete:fault', 'late-reply-after-timeout', 'contraction', 'full-stack', 'close-fails-inflight', 'drain-with-dead-waiters', 'thrift', 'mux')
   ASSUMPTIONS = ('white-box read of node.load, as named by the property (observe_at)',)
 
   def run_case(self, env, rng, idx, tier):
     if idx % 4 == 3:
       if not hasattr(self, '_full'):
         self._full = _FullStackLoad()
-      res = self._full.run_case(env, rng, idx, tier)
+      res = self._full.run_case(env, rng, idx // 4, tier)      # both parities: the stack kind alternates with the index
       res.classes = sorted(set(res.classes) | {'full-stack'})
       res.sig = ('full-stack', res.sig)
       return res
